@@ -441,7 +441,7 @@ pub fn property() -> Property {
         subs: vec![PropSub {
             name: "histories",
             strategy: case_strategy,
-            cases: |t| t.pick(150_000, 3_000_000),
+            cases: |t| t.pick(750_000, 5_000_000),
             run: run_history,
             floors: &[("v0", 0.15), ("v1", 0.15), ("v2", 0.15), ("downgrade", 0.10), ("fallback", 0.10), ("wrap", 0.05), ("diff", 0.2)],
         }
